@@ -49,6 +49,23 @@ def const_str(op):
     return None
 
 
+def const_strs(op):
+    """string literals found inside a referenced constant / promoted value (tables such as `const KW: [&str; 4]`), plus the
+    operand's own literal if it is one"""
+    out = []
+    if not op or op.get("k") != "const":
+        return out
+    s0 = const_str(op)
+    if s0 is not None:
+        out.append(s0)
+    for d in op.get("strs", []) or []:
+        if d.startswith('const "') and d.endswith('"'):
+            out.append(_unescape(d[7:-1]))
+        elif d.startswith('"') and d.endswith('"'):
+            out.append(_unescape(d[1:-1]))
+    return out
+
+
 def _unescape(s):
     try:
         return bytes(s, "utf-8").decode("unicode_escape").encode("latin-1", "ignore").decode("utf-8", "ignore") if "\\" in s else s
